@@ -14,7 +14,7 @@ RULE = ("Hypothesis RuleBasedStateMachine: rules construct(family, member) (pool
         "that is overwritten in place between evaluations (optionally with a value holder that still holds an earlier "
         "value), the value then being compared with the same point in a new array; points within 1e-9 of the side of an "
         "earlier point are compared with a brand-new instance of the member; a rule adds further instances of a member; "
-        "for StronginC3 also the three constraint functions. Oracle: dictionary (family, member, function id, point "
+        "Rastrigin and XSquared in dimensions 1..16; for StronginC3 also the three constraint functions. Oracle: dictionary (family, member, function id, point "
         "bytes) -> first value seen; every later evaluation on any instance of that member must return the "
         "bit-identical value, leave the point unchanged and return the supplied holder with the value stored. "
         "Non-trivial: a point re-evaluated after at least one construction and one evaluation of a different "
